@@ -43,7 +43,13 @@ def searches(tier):
 
 def build(case):
     prog = case["prog"]
-    stmts = [dict(s) for s in prog["stmts"] if s["k"] not in ("nam", "end")]
+    stmts = []
+    for s in prog["stmts"]:
+        if s["k"] in ("nam", "end"):
+            if s.get("lab"):
+                stmts.append({"lab": s["lab"], "k": "inh", "mn": "NOP"})   # keep the label other statements refer to
+            continue
+        stmts.append(dict(s))
     if case["bulk"]:
         stmts.append({"lab": "", "k": "rmb", "val": proggen.lit(case["bulk"])})
         stmts.append({"lab": "", "k": "fcb", "vals": [proggen.lit(0xAA)]})
@@ -68,7 +74,7 @@ def execute(case):
     ref = driver.assemble(lines, timeout=120)
     labels = []
     if ref.kind != "OK":
-        return skip("program not accepted in process ({})".format(ref.kind), labels=labels)
+        return skip("program not accepted in process ({}: {})".format(ref.kind, (ref.message or "")[:40]), labels=labels)
     if len(ref.image) == 0:
         return skip("program emits no bytes", labels=labels)
     image = ref.image
